@@ -469,14 +469,28 @@ impl <'a>SearchEnv<'a> {
     }
 
     pub fn poll_input(&mut self) {
+        //Already on the way out: whatever arrives now is for the command loop
+        if self.stopping { return; }
         #[cfg(jence_verif)]
         if let Some(stop) = crate::verif::on_poll(self.nodes) {
             if stop { self.stopping = true; }
             return;
         }
-        if (self.max_time != -1 && self.start_time.elapsed().unwrap().as_millis() as i64 >= self.max_time) || self.io_receiver.try_read_line().is_some() {
+        if self.max_time != -1 && self.start_time.elapsed().unwrap().as_millis() as i64 >= self.max_time {
             self.stopping = true;
             return;
+        }
+        if let Some(line) = self.io_receiver.try_read_line() {
+            match line.split(" ").next().unwrap().to_ascii_lowercase().as_str() {
+                //Answered on the spot, the search goes on
+                "isready" => print!("readyok\n"),
+                "stop" => self.stopping = true,
+                //Anything else ends the search and is handed back to the command loop
+                _ => {
+                    self.io_receiver.defer_line(line);
+                    self.stopping = true;
+                }
+            }
         }
     }
 }
